@@ -66,8 +66,11 @@ class Explorer:
                     if r['complete']:
                         if bound >= c.best_bound:
                             c.best, c.best_bound = r, bound
-                        if r.get('classes_capped') or r.get('states_capped'):
-                            chk.cap('%s: class/state table full in cell %s' % (c.leg, c.desc))
+                        if r.get('classes_capped'):
+                            chk.cap('%s: outcome class table full in cell %s' % (c.leg, c.desc))
+                        if r.get('states_capped'):
+                            # only the count of distinct states is affected (it becomes a lower bound)
+                            chk.cov['distinct_state_count_is_a_lower_bound'] = True
                     else:
                         c.partial = r
                         if ok[0]:
@@ -81,7 +84,7 @@ class Explorer:
             list(ex.map(one, cells))
         return ok[0]
 
-    def run_priorities(self, kfun, cells=None, label='priorities'):
+    def run_priorities(self, kfun, cells=None, label='priorities', demote=0):
         """For every cell: one execution under each strict-priority scheduler
         (all K! priority orders of its K threads, K = kfun(cell) <= 7; a thread
         runs only while all threads of higher priority are blocked).  These
@@ -104,13 +107,18 @@ class Explorer:
                 K = max(1, min(7, int(kfun(c))))
                 opts = dict(c.opts)
                 opts['nprio'] = K
+                if demote:
+                    # one priority-change point anywhere in the run (the thread that would run next drops
+                    # to the lowest priority): starves a thread from that moment on
+                    opts['demote'] = demote
                 path = self.file_for(c.data) if c.data is not None else None
-                r = lbzx.explore(c.variant, c.args, bound=0, jobs=1, deadline=chk.left() - 2,
+                r = lbzx.explore(c.variant, c.args, bound=demote, jobs=(self.jobs if demote else 1), deadline=chk.left() - 2,
                                  stdin_path=path, policy='prio:%d' % K, cpu_base=slot, **opts)
                 self._judge(c, path, r, opts)
                 with self._lock:
                     if r['complete']:
-                        c.prio = r
+                        if c.prio is None or r['executions'] >= c.prio['executions']:
+                            c.prio = r
                     else:
                         if ok[0]:
                             chk.cap('deadline inside %s of cell %s [%s]' % (label, c.leg, c.desc))
@@ -229,6 +237,31 @@ class Explorer:
         cov['max_preemptions_in_one_execution'] = tot['max_pre']
         cov['max_choice_points_in_one_execution'] = tot['max_cp']
         return tot
+
+def perm_rank(perm):
+    """index of a permutation of 0..K-1 in the order used by vsched.c:prio_decode"""
+    pool = sorted(perm)
+    r = 0
+    import math
+    for i, x in enumerate(perm):
+        q = pool.index(x)
+        r += q * math.factorial(len(perm) - 1 - i)
+        pool.pop(q)
+    return r
+
+def priority_orders(K, workers, last=(0,)):
+    """Policy names of the strict-priority schedulers over threads 0..K-1 up to symmetry: the worker
+    threads are interchangeable (kept in increasing order) and the threads in `last' (main, which sleeps
+    in sigsuspend) stay at the lowest priority."""
+    import itertools
+    rest = [t for t in range(K) if t not in last]
+    out = []
+    for perm in itertools.permutations(rest):
+        w = [t for t in perm if t in workers]
+        if w != sorted(w):
+            continue
+        out.append('P%d' % (3 + perm_rank(list(perm) + list(last))))
+    return out
 
 INV_NAMES = {1: 'work_units above the worker count', 2: 'in_slots above the total', 4: 'out_slots above the total (or taken below zero)',
              8: 'live heap above the bound', 16: 'slot totals above the documented per-worker constants', 256: 'heap block overrun (write behind an allocation)',
